@@ -311,9 +311,11 @@ def check_yields(chk, ctx):
                     sv = {"StorageType.RAM", "StorageType.DISK"} if sto.data[0] == "self._storage" else None
                 if sv is None and pure_sym(sto) and run_.owner == "MultistageCheckpointSchedule":
                     sv = {"StorageType.RAM", "StorageType.DISK"}
-                if None in fl or sv is None:
+                unresolved = None in fl
+                fl = [x if x is not None else {True, False} for x in fl]
+                if sv is None:
                     if run_.owner == "RevolveCheckpointSchedule":
-                        continue  # decided through the _convert_action summary below
+                        continue
                     chk.decide("C18.FLAGS", cons, None, f"flags {wi},{wa} storage {sto} not resolved to finite sets",
                                rel=run_.rel, node=rec.node)
                     continue
@@ -333,6 +335,8 @@ def check_yields(chk, ctx):
                                 (s_ == "StorageType.NONE" and (w1 or w2)) or (w1 and w2)
                             nbad += 1 if isbad else 0
                 single = (all(len(x) == 1 for x in fl) and len(sv) == 1) or (combos and nbad == combos)
+                if bad is not None and unresolved and not (combos and nbad == combos):
+                    single = False
                 chk.decide("C18.FLAGS", cons, True if bad is None else (False if single else None),
                            (bad or f"flags/storage consistent: {fl} {sorted(sv)}") + (f" under {cfg}" if cfg else ""),
                            rel=run_.rel, node=rec.node)
